@@ -74,7 +74,13 @@ func TestVerifC02Sampled(t *testing.T) {
 			tot += wl[j]
 		}
 		base := r.Intn(1 << 19)
-		mode := r.Intn(3) // 0 Read, 1 io.Copy (WriterTo), 2 Read a little then io.Copy
+		// 0 Read, 1 io.Copy (WriterTo), 2 Read a little then io.Copy,
+		// 3 Read 1-2 bytes, io.Copy interrupted by a read deadline while the writer pauses, then go on
+		mode := r.Intn(4)
+		resume := make(chan struct{})
+		if mode != 3 {
+			close(resume)
+		}
 		mb, err := manet.WrapNetConn(b)
 		if err != nil {
 			t.Fatal(err)
@@ -88,11 +94,17 @@ func TestVerifC02Sampled(t *testing.T) {
 		go func() {
 			defer close(wdone)
 			off := base
-			for _, l := range wl {
+			for j, l := range wl {
+				if j == 1 {
+					<-resume
+				}
 				if _, err := a.Write(ref[off : off+l]); err != nil {
 					return
 				}
 				off += l
+			}
+			if len(wl) == 1 {
+				<-resume
 			}
 			a.(*net.TCPConn).CloseWrite()
 		}()
@@ -110,6 +122,53 @@ func TestVerifC02Sampled(t *testing.T) {
 			reads = append(reads, 3, 0, 3, 0) // the peeked bytes themselves are wrong
 		}
 		rec := &c02Recorder{base: base}
+		if mode == 3 {
+			buf := make([]byte, 8)
+			k := 1 + r.Intn(2)
+			nrd, _ := wrapped.Read(buf[:k])
+			if nrd > 0 {
+				rec.Write(buf[:nrd])
+				rec.reads[len(rec.reads)-4] = int64(k)
+			}
+			// the writer is pausing: the copy hands over what is there and then times out
+			wrapped.SetReadDeadline(time.Now().Add(80 * time.Millisecond))
+			_, cerr := io.Copy(rec, wrapped)
+			if cerr == nil {
+				// EOF already (cannot happen while the writer pauses): record it
+				rec.reads = append(rec.reads, 1, 1, 0, 1)
+			}
+			wrapped.SetReadDeadline(dl)
+			close(resume)
+			if cerr != nil {
+				if r.Chance(1, 2) {
+					_, err := io.Copy(rec, wrapped)
+					res := int64(1)
+					if err != nil {
+						res = 2
+					}
+					rec.reads = append(rec.reads, 1, res, 0, 1)
+				} else {
+					big := make([]byte, 70000)
+					for {
+						bl := 1 + r.Intn(40000)
+						nrd, err := wrapped.Read(big[:bl])
+						if nrd > 0 {
+							rec.Write(big[:nrd])
+							rec.reads[len(rec.reads)-4] = int64(bl)
+						}
+						if err != nil {
+							res := int64(2)
+							if err == io.EOF {
+								res = 1
+							}
+							rec.reads = append(rec.reads, int64(bl), res, 0, 1)
+							break
+						}
+					}
+				}
+			}
+			out.Cover("sampled.cases_copy_interrupted_after_partial_read")
+		}
 		if mode == 0 || mode == 2 {
 			lim := 1000000
 			if mode == 2 {
